@@ -253,7 +253,9 @@ where
         std::fs::write(out, bytes).map_err(|e| format!("{}: {}", out, e))?;
         return Ok(None);
     }
-    if n <= chunk {
+    // (thread flavour: always in child processes, so that an execution that ABORTS - a panic inside a destructor while
+    // a thread of the simulated process unwinds - takes a child with it and not the check; see `isolate_abort`)
+    if n <= chunk && !cfg!(mos_verif_threads) {
         let (acc, _) = par_fold(n, cli.workers, None, &init, &step, &mut merge);
         return Ok(Some(acc));
     }
@@ -277,6 +279,12 @@ where
             .map_err(|e| format!("cannot start chunk process: {}", e))?;
         if !st.success() {
             let _ = std::fs::remove_file(&out);
+            {
+                use std::os::unix::process::ExitStatusExt;
+                if st.signal() == Some(6) {
+                    return Err(format!("ABORT {} {}", a, b));
+                }
+            }
             return Err(format!(
                 "chunk process for runs {}..{} ended with {:?}",
                 a, b, st
@@ -290,6 +298,70 @@ where
         a = b;
     }
     Ok(Some(total))
+}
+
+/// Does the chunk process for executions a..b die of SIGABRT?
+pub fn chunk_aborts(cli: &Cli, a: u64, b: u64) -> bool {
+    use std::os::unix::process::ExitStatusExt;
+    let dir = verif_root().join("target").join("chunks");
+    let _ = std::fs::create_dir_all(&dir);
+    let out = dir.join(format!("{}-{}-probe-{}.json", cli.target, std::process::id(), a));
+    let st = std::process::Command::new(&cli.exe)
+        .args(std::env::args().skip(1))
+        .arg("--chunk-from")
+        .arg(a.to_string())
+        .arg("--chunk-to")
+        .arg(b.to_string())
+        .arg("--chunk-out")
+        .arg(&out)
+        .stderr(std::process::Stdio::null())
+        .status();
+    let _ = std::fs::remove_file(&out);
+    matches!(st, Ok(s) if s.signal() == Some(6))
+}
+
+/// An execution in a..b aborts its process. Find the first such execution by bisection on prefixes (every execution is
+/// a function of the seed and its index alone, so the probes are exact repetitions).
+pub fn isolate_abort(cli: &Cli, a: u64, b: u64) -> Option<u64> {
+    let (mut lo, mut hi) = (a, b);
+    // invariant: a..hi aborts, a..lo does not
+    while hi - lo > 1 {
+        let mid = lo + (hi - lo) / 2;
+        if chunk_aborts(cli, a, mid) {
+            hi = mid;
+        } else {
+            lo = mid;
+        }
+    }
+    if chunk_aborts(cli, lo, lo + 1) {
+        Some(lo)
+    } else {
+        None
+    }
+}
+
+/// Replay of an execution that is expected to abort its process: run it in a child (`--inner 1`), report what the
+/// child died of and the first panic it announced.
+pub fn replay_in_child(cli: &Cli, path: &Path) -> (bool, String) {
+    use std::os::unix::process::ExitStatusExt;
+    let out = std::process::Command::new(&cli.exe)
+        .arg(&cli.target)
+        .arg("--replay")
+        .arg(path)
+        .arg("--inner")
+        .arg("1")
+        .env("VERIF_ROOT", verif_root())
+        .env("VERIF_KEEP_STDERR", "1")
+        .env("VERIF_PANIC_ECHO", "1")
+        .output();
+    match out {
+        Ok(o) => {
+            let err = String::from_utf8_lossy(&o.stderr);
+            let first = err.lines().find(|l| l.starts_with("VERIF-PANIC: ")).unwrap_or("").trim_start_matches("VERIF-PANIC: ").to_string();
+            (o.status.signal() == Some(6), first)
+        }
+        Err(_) => (false, String::new()),
+    }
 }
 
 impl<'de> serde::Deserialize<'de> for Violation {
